@@ -3,7 +3,7 @@ The lead may wrap / compose these with the String, Box and arena parts."""
 
 VEC_OPS = ["new", "with_cap", "push", "pop", "insert", "remove", "swap_remove", "truncate", "clear", "resize", "extend",
            "extend_from_slice", "extend_copy", "extend_refs", "extend_slices", "append", "split_off", "drain", "splice", "drain_filter", "retain",
-           "dedup", "dedup_by", "dedup_by_key", "reserve", "reserve_exact", "try_reserve", "try_reserve_exact", "shrink", "clone",
+           "dedup", "dedup_by", "dedup_by_lt", "dedup_by_key", "reserve", "reserve_exact", "try_reserve", "try_reserve_exact", "shrink", "clone",
            "into_iter", "into_iter_nth", "into_bump_slice", "into_boxed", "from_iter", "collect_in", "vmacro_n", "vmacro_list", "drop"]
 
 
